@@ -2,6 +2,7 @@
 //        the value-level contract of metrics::_f1 (finite, in [0,1], calibrated) is the Kani function contract
 //        kani/metrics_f1 on the same extracted text.
 use vstd::prelude::*;
+use vstd::std_specs::ops::*;
 verus! {
 #[derive(Debug)]
 pub struct AnyhowError;
@@ -25,14 +26,60 @@ pub open spec fn count_where(p: Seq<bool>, t: Seq<bool>, pv: bool, tv: bool) -> 
 fn _count_tp_fp_fn(a: &[bool], b: &[bool]) -> (r: (usize, usize, usize))
     requires a.len() == b.len(),
     ensures r.0 == count_where(a@, b@, true, true), r.1 == count_where(a@, b@, true, false), r.2 == count_where(a@, b@, false, true),
+        r.0 + r.1 + r.2 <= a.len(),   // the three counts are over disjoint positions
 { unimplemented!() }
 
-/// the value computed by metrics::_f1 (IEEE arithmetic, uninterpreted here; see the Kani contract)
-pub uninterp spec fn f1_spec(tp: usize, fp: usize, fn_: usize, beta: f64) -> F1PrecRec;
+// ---------------------------------------------------------------- F-beta formula (floats as uninterpreted total functions)
+/// `x as f64`, `x.powi(n)` (R9_cast): values are uninterpreted here
+pub uninterp spec fn f_of(x: int) -> f64;
 #[verifier::external_body]
+fn vt_f64(x: usize) -> (r: f64) ensures r == f_of(x as int) { x as f64 }
+pub uninterp spec fn powi_spec(x: f64, n: int) -> f64;
+#[verifier::external_body]
+fn vt_powi(x: f64, n: i32) -> (r: f64) ensures r == powi_spec(x, n as int) { x.powi(n) }
+/// IEEE-754 `+ * /` on f64 never fail and are deterministic functions of their operands (vstd leaves both open)
+#[verifier::external_body]
+pub broadcast proof fn axiom_f64_ops(a: f64, b: f64)
+    ensures
+        #![trigger a.div_req(b)] #![trigger a.mul_req(b)] #![trigger a.add_req(b)]
+        a.div_req(b), a.mul_req(b), a.add_req(b),
+{}
+#[verifier::external_body]
+pub proof fn axiom_f64_obeys()
+    ensures <f64 as DivSpec<f64>>::obeys_div_spec(), <f64 as MulSpec<f64>>::obeys_mul_spec(), <f64 as AddSpec<f64>>::obeys_add_spec(),
+{}
+
+/// precision / recall: tp / max(tp + other, 1)
+pub open spec fn ratio_spec(tp: int, other: int) -> f64 { f_of(tp).div_spec(f_of(if tp + other >= 1 { tp + other } else { 1 })) }
+/// F-beta = (1 + b^2) * P * R / (b^2 * P + R)   (the defining formula; b^2 weights precision in the denominator)
+pub open spec fn fbeta_spec(p: f64, r: f64, b2: f64) -> f64 {
+    (1.0f64.add_spec(b2)).mul_spec(p).mul_spec(r).div_spec(b2.mul_spec(p).add_spec(r))
+}
+pub open spec fn f1_ok(r: F1PrecRec, tp: int, fp: int, fn_: int, beta: f64) -> bool {
+    &&& r.1 == ratio_spec(tp, fp)
+    &&& r.2 == ratio_spec(tp, fn_)
+    &&& (r.0 == fbeta_spec(r.1, r.2, powi_spec(beta, 2)) || r.0 == 0.0f64)
+}
+
+//@unit src/metrics.rs fn _f1
+//@rule R9_cast
 fn _f1(tp: usize, fp: usize, fn_: usize, beta: f64) -> (r: F1PrecRec)
-    ensures r == f1_spec(tp, fp, fn_, beta),
-{ unimplemented!() }
+    requires tp + fp <= usize::MAX, tp + fn_ <= usize::MAX,     // domain: the counts add up without overflow
+    ensures f1_ok(r, tp as int, fp as int, fn_ as int, beta),
+{
+    broadcast use axiom_f64_ops;
+    proof { axiom_f64_obeys(); }
+    let precision = vt_f64(tp) / vt_f64((tp + fp).max(1));
+    let recall = vt_f64(tp) / vt_f64((tp + fn_).max(1));
+    let f1 = if precision + recall > 0.0 {
+        let beta_sq = vt_powi(beta, 2);
+        ((1.0 + beta_sq) * precision * recall) / (beta_sq * precision + recall)
+    } else {
+        0.0
+    };
+    (f1, precision, recall)
+}
+//@end
 
 //@unit src/metrics.rs fn binary_f1
 //@rule R4
@@ -41,10 +88,10 @@ pub fn binary_f1(predictions: &[bool], targets: &[bool], beta: f64) -> (res: VtR
         // a length mismatch is an error, not a panic
         res.is_err() <==> predictions.len() != targets.len(),
         // otherwise the F-beta of (true positives, false positives, false negatives)
-        res.is_ok() ==> res.unwrap() == f1_spec(
-            count_where(predictions@, targets@, true, true) as usize,
-            count_where(predictions@, targets@, true, false) as usize,
-            count_where(predictions@, targets@, false, true) as usize, beta),
+        res.is_ok() ==> f1_ok(res.unwrap(),
+            count_where(predictions@, targets@, true, true) as int,
+            count_where(predictions@, targets@, true, false) as int,
+            count_where(predictions@, targets@, false, true) as int, beta),
 {
     if predictions.len() != targets.len() {
         return Err(vt_anyhow());
